@@ -21,6 +21,16 @@ def R(mod, name, cfg="rc"):
 
 
 PROPS = {
+    "C14": dict(
+        rules=[R("values", "rule_hasheq"), R("values", "rule_immut"), R("values", "rule_map_order"),
+               R("values", "rule_fresh")],
+        clause="Hash agrees with Eq for map keys (R-HASHEQ); tuples, strings and ranges have no interior mutability "
+               "between handle and storage (R-IMMUT); only order-preserving map operations are used outside map.sort / "
+               "random.shuffle, and the replace-at-index idiom is complete and guarded (R-MAP-ORDER); `+` and "
+               "copy/deep_copy build fresh containers (R-FRESH). Not decided: equality and ordering laws over values, "
+               "sort correctness, aliasing histories.",
+        technique="cast/callee census of sibling impls (Hash vs Eq); ADT type walk; who-may-call + idiom dominance over MIR",
+    ),
     "C16": dict(
         rules=[R("tc", "rule_tc_flag"), R("tc", "rule_tc_pure"), R("tc", "rule_tc_null_first"),
                R("placeholder", "rule_placeholder")],
@@ -149,7 +159,6 @@ NOT_APPLICABLE = {
            "bytecode; no clause is visible in the shape of the Rust code (DESIGN.md section 5)",
     "C09": "every clause constrains numeric cursor values computed from the input's characters; no structural "
            "necessary condition exists (DESIGN.md section 5)",
-    "C14": "rules not built yet",
     "C15": "rules not built yet",
     "C17": "rules not built yet",
     "C19": "rules not built yet",
